@@ -298,6 +298,115 @@ def helper_cursor(P, R, fns, rule='C13.CUR.2'):
                  key='helper-start:%s' % g.name)
     return n
 
+def mask_forms(P, R, fns, rule='C13.TAB.5'):
+    """Three agreements inside the address code that the value clauses rest on:
+      view     the mask test walks the address in the unit it counts in: the element it compares per step is as many
+               bits wide as the step takes off the prefix length (16-bit groups <-> `bits -= 16`);
+      output   every place where the dotted-quad helper hands back the address stores it in the same form (sibling
+               stores through the output parameter are the same expression, e.g. all `htonl(ip)`);
+      pending  a group's digits that have been accumulated are stored into the address before the accumulator is
+               re-used for something else (the prefix length) or the parse ends successfully - unless the text is
+               re-read from the saved start of the group by the dotted-quad helper."""
+    n = 0
+    for f in fns:
+        # ---- view
+        for head, body in __import__('sa.rules', fromlist=['x']).loops_of(f):
+            steps = [t for x in body for t in f.block_sites(x) if t.ev['k'] == 'store' and t.ev.get('op') == '-=' and is_var(t.ev.get('lhs')) and isinstance(const_of(t.ev.get('rhs')), int)
+                     and t.ev['lhs'].get('sc') == 'param']
+            if not steps:
+                continue
+            cmps = []
+            for x in list(body) + [head]:
+                c = f.term_cond(x)
+                for y in walk(c) if c is not None else ():
+                    if y.get('k') == 'bin' and y.get('op') in ('!=', '==', '^') and all(isinstance(z, dict) and z.get('k') == 'idx' and (z.get('base') or {}).get('k') == 'mem' for z in (y.get('l'), y.get('r'))):
+                        cmps.append(y)
+            for y in cmps:
+                elsz = (y['l']['base'] or {}).get('elsz')
+                n += 1
+                R.ob(rule, elsz is not None and 8 * elsz == const_of(steps[0].ev['rhs']), steps[0], 'in %s a step compares %s (%s bits) and takes %s off the prefix length' % (f.name, sx(y['l']), 8 * elsz if elsz else '?', sx(steps[0].ev['rhs'])),
+                     key='view:%s' % f.name)
+        # ---- output
+        for j, p in enumerate(f.param_info):
+            if not p.get('t', '').endswith('*') or p['t'].startswith('const'):
+                continue
+            st = [t for t in f.stores() if t.ev['k'] == 'store' and t.ev.get('op') == '=' and (t.ev.get('lhs') or {}).get('k') == 'un' and t.ev['lhs'].get('op') == '*' and is_var(t.ev['lhs'].get('e'), p['name'])]
+            forms = {}
+            for t in st:
+                rhs = t.ev.get('rhs')
+                if isinstance(rhs, dict) and rhs.get('k') in ('callref', 'var') and not isinstance(const_of(rhs), int):
+                    forms.setdefault(sx(rhs), []).append(t)
+            if sum(len(v) for v in forms.values()) >= 2 and any((t.ev.get('rhs') or {}).get('k') == 'callref' for v in forms.values() for t in v):
+                major = max(forms, key=lambda k: len(forms[k]))
+                for k, v in forms.items():
+                    for t in v:
+                        n += 1
+                        R.ob(rule, k == major, t, 'in %s every store through %s hands the result back in the same form (%s; here %s)' % (f.name, p['name'], major, k), key='output-form:%s' % f.name)
+        # ---- pending
+        accs = {}
+        for t in f.stores():
+            ev = t.ev
+            rhs = ev.get('rhs') or {}
+            if ev['k'] == 'store' and ev.get('op') == '=' and is_var(ev.get('lhs')) and rhs.get('k') == 'bin' and rhs.get('op') == '|' and any(y.get('k') == 'bin' and y.get('op') == '<<' and is_var(y.get('l'), ev['lhs']['name']) for y in walk(rhs)):
+                accs.setdefault(ev['lhs']['name'], []).append(t)
+        for acc, sites in accs.items():
+            keys = {f2.key for f2 in fns}
+
+            def on_event(st, t, acc=acc):
+                ev = t.ev
+                if ev['k'] == 'store' and is_var(ev.get('lhs'), acc):
+                    rhs = ev.get('rhs') or {}
+                    if any(y.get('k') == 'bin' and y.get('op') == '<<' and is_var(y.get('l'), acc) for y in walk(rhs)):
+                        return 'pending'
+                    if st == 'pending':
+                        return 'lost'
+                    return st
+                if ev['k'] == 'store' and (ev.get('lhs') or {}).get('k') == 'idx' and any(is_var(y, acc) for y in walk(ev.get('rhs'))):
+                    return 'stored' if st != 'lost' else st
+                if ev['k'] in ('call', 'store', 'decl'):
+                    for y in walk(ev.get('rhs') if ev['k'] == 'store' else ev.get('init') if ev['k'] == 'decl' else ev):
+                        if isinstance(y, dict) and y.get('k') in ('callref', 'call') and y.get('callee'):
+                            g = P.direct_target(f, y['callee'])
+                            if g is not None and g.key in keys and g.key != f.key and st == 'pending':
+                                return 'reread'
+                return st
+            before, _, _, _ = f.forward('none', on_event, None)
+            lost = [t for t in f.stores() if t.ev['k'] == 'store' and is_var(t.ev.get('lhs'), acc) and 'pending' in before.get(t.key, set())
+                    and not any(y.get('k') == 'bin' and y.get('op') == '<<' and is_var(y.get('l'), acc) for y in walk(t.ev.get('rhs') or {}))]
+            n += 1
+            R.ob(rule, not lost, lost[0] if lost else sites[0], 'in %s the digits accumulated in %s are stored into the address before %s is re-used' % (f.name, acc, acc), key='pending:%s' % f.name)
+    return n
+
+def optional_outputs(P, R, fns, rule='C13.NULL.1'):
+    """A pointer parameter that the function itself compares with NULL somewhere is optional (the daemon passes NULL for
+    the prefix-length output when it parses a client's address): every dereference of it, here or in a helper it is
+    handed to, is dominated by a non-null test.  (Contradiction rule: one path checks, another must not assume.)"""
+    from .. import rules as _rules
+    from ..model import rel as _rel
+    d = _rules.Deref(P)
+    n = 0
+    for f in fns:
+        for i, p in enumerate(f.param_info):
+            if not p.get('t', '').endswith('*'):
+                continue
+            tested = False
+            for b in f.blocks:
+                c = f.term_cond(b)
+                r = _rel(c, True) if c is not None else None
+                if r and is_var(r[0], p['name']) and const_of(r[2]) == 0:
+                    # an assertion is a precondition, not optionality
+                    if any(f.blocks[e.dst].get('noreturn') and any(t.ev.get('callee') == '__assert_fail' for t in f.block_sites(e.dst)) for e in f.out[b]):
+                        continue
+                    tested = True
+            if not tested:
+                continue
+            bad = d.deref(f, i)
+            n += 1
+            w = d.witness.get((f.key, i))
+            R.ob(rule, not bad, (w[0] if isinstance(w, tuple) and hasattr(w[0], 'loc') else f), 'in %s the optional output %s is dereferenced only where it is known to be non-NULL%s' % (f.name, p['name'], (' (%s)' % (w[1] if isinstance(w, tuple) else w)) if bad and w else ''),
+                 key='optional:%s:%s' % (f.name, p['name']))
+    return n
+
 def helper_outputs(P, R, fns, rule='C13.INIT.1'):
     """A result the helper hands back through a pointer is read only when the helper has produced it: where the helper
     has returning paths that never store through the parameter (all of them return 0), every later use of the local
@@ -473,8 +582,16 @@ def run(P, R, tier):
     prefix_width(P, R)
     hex_table(P, R)
     full_range(P, R, fns)
+    # the class rule's address criterion is the mask test on the rule's own prefix length
+    from . import c11
+    from ..report import Remap
+    c11.matcher(P, Remap(R, {'C11.GRD.2': 'C13.GRD.1', 'C11.GRD.3': 'C13.GRD.1'}))
     helper_cursor(P, R, fns)
     helper_outputs(P, R, fns)
+    optional_outputs(P, R, fns)
+    mask_forms(P, R, fns)
+    R.floor('C13.TAB.5', 3, 'view width, output form, pending group')
+    R.floor('C13.NULL.1', 2, 'optional prefix-length outputs of the parser and its helper')
     R.floor('C13.INIT.1', 2, 'uses of the dotted-quad helper\'s output')
     R.floor('C13.CUR.2', 1, 'the dotted-quad helper called on a saved start')
     R.floor('C13.TAB.4', 4, 'full-range acceptance: embedded copy, two prefix bounds, mask residue')
